@@ -6,8 +6,17 @@ case = one run of update_file:
    "hash": "SHA1" | "SHA256" | "both", which hash family the Index publishes
    "order": 0..3, "extra": bool, "names": 0 | 1      Index layout: field order, ignorable fields + padded
                                                       columns, patch naming scheme
+   "verbose": bool, "via": 0 | 1 | 2                  how update_file is called (see below)
    "start": ["absent"] | ["v", i] | ["current"] | ["foreign"]        the local file before the call
    "faults": [fault, ...]}                                            usually none or one
+
+  call form: "verbose" is update_file's documented third parameter (its only one besides remote and
+  local).  via 0 = update_file(remote, local) / update_file(remote, local, verbose=True);
+  via 1 = third argument positional, update_file(remote, local, False | True);
+  via 2 = through the module's deprecated alias updateFile (keyword form; its DeprecationWarning
+  is silenced; a tree without the alias is called as via 0).  Whatever the call prints is captured
+  in a StringIO for the duration of the call (sys.stdout is checked to be back afterwards) and is
+  not judged: the statement promises the same outcome for every call form and nothing about output.
 
   fault = ["patch", kind, j]      kind in PATCH_FAULTS, j = patch vj -> vj+1 (modulo n)
         | ["index", kind, x]      kind in INDEX_FAULTS
@@ -24,18 +33,23 @@ wrapped to record which URLs were fetched).  The library has no hooks.
 
 Generation is *fault enumeration*: Hypothesis generates histories (+ Index layout); for every history
 ``plans()`` enumerates every start state x every fault plan, and each (history, start, faults) triple
-is one evaluation of check().
+is one evaluation of check().  The fixed histories run the complete plan set with verbose False and
+with verbose True; a generated history runs the complete plan set at the verbose value drawn with it
+and, in addition, every start state without fault at the opposite value.
 """
 import builtins
+import contextlib
 import errno
 import gzip
 import hashlib
+import io
 import locale
 import os
 import shutil
 import sys
 import tempfile
 import urllib.request
+import warnings
 import zlib
 from unittest import mock
 
@@ -51,14 +65,18 @@ LEVEL = "fault_enumeration"
 RULE = ("Hypothesis generates histories v0..vn (n=1..4, 0..7 lines per version from a 15-line pool (incl. lines with FF, VT, GS, NEL, U+2028 inside), "
         "each version derived from the previous one by 1..2 hunks, sometimes reverting to an earlier "
         "one) x Index layout (SHA1 / SHA256 / both, 4 field orders, ignorable fields, 2 naming "
-        "schemes); for every history the complete plan set is enumerated: start in {absent, each vi, "
+        "schemes) x call form (verbose False / True; parameter by keyword, positional, or through the "
+        "deprecated alias updateFile); for every history the complete plan set is enumerated (fixed "
+        "histories: at both verbose values; generated histories: at the drawn verbose value, plus every "
+        "start without fault at the other value): start in {absent, each vi, "
         "current, foreign} x faults in {none; per patch: replaced, replaced by an equivalent script, "
         "self-consistent but wrong, truncated, not gzip, missing; Index: missing, 4 unparseable forms, "
         "wrong Current hash, short History entry, patch not listed; k-th write failing for every k <= "
-        "lines of vn; open failing; rename failing; Index missing/unparseable combined with a write / "
-        "rename fault}.  Non-trivial = no fault and the local file at v1..vn-1 of a history with n>=2, "
-        "or a fault that took effect (the damaged resource was fetched / the write, open or rename "
-        "was attempted); distinct = distinct canonical JSON of the (history, start, faults) triple")
+        "lines of vn; open failing; rename failing; flush at close failing; Index missing/unparseable "
+        "combined with a write / rename / close fault}.  Non-trivial = no fault and the local file at v1..vn-1 of a history with n>=2, "
+        "or a fault that took effect (the damaged resource was fetched / the write, open, rename "
+        "or close was attempted); distinct = distinct canonical JSON of the (history incl. layout and call "
+        "form, start, faults) triple")
 ASSUMPTIONS = [
     "expected content is vn itself; hashes in the Index come from hashlib, patches from the harness's LCS "
     "differ checked against its own ed model (model/c18_eddiff.py)",
@@ -66,20 +84,25 @@ ASSUMPTIONS = [
     "a write fault that never fires (the implementation wrote through another channel) expects convergence",
     "transport-level patch faults (truncated, not gzip, missing) and Index defects the statement does not "
     "name accept either outcome: converged, or raised with the local file intact",
+    "the call's output is captured with contextlib.redirect_stdout into a StringIO (so printing cannot fail "
+    "on the stream's encoding) and is not judged; verbose is the only parameter of update_file besides "
+    "remote and local; the knobs of its helpers (replace_file encoding=, patches_from_ed_script re_cmd=) "
+    "cannot be reached through update_file and stay out of this check",
     "file:// URLs through urllib; process locale must be UTF-8 for the non-ASCII line (else those cases are skipped)",
     "Hypothesis 6.168 generators; sha1 for distinctness",
 ]
 EXHAUSTIVE = {
-    "quick": "for each of the 7 fixed histories x 3 hash configurations and for every generated history: "
-             "every start state x every fault plan of plans()",
-    "thorough": "for each of the 7 fixed histories x 3 hash configurations and for every generated history: "
-                "every start state x every fault plan of plans()",
+    "quick": "for each of the 7 fixed histories x 3 hash configurations x verbose False/True and for every "
+             "generated history (at its drawn call form): every start state x every fault plan of plans()",
+    "thorough": "for each of the 7 fixed histories x 3 hash configurations x verbose False/True and for every "
+                "generated history (at its drawn call form): every start state x every fault plan of plans()",
 }
 BUDGET = {"quick": 180, "thorough": 1800}
 
 PATCH_FAULTS = ("replaced", "equivalent", "wrong", "truncated", "notgzip", "missing")
 INDEX_FAULTS = ("missing", "broken", "wrong-current", "columns", "unlisted")
 N_BROKEN = 6
+VIA = ("keyword", "positional", "alias")
 POOL = ["a\n", "b\n", "c\n", "..\n", " .\n", ". \n", "1a\n", "2,3d\n", "\n", "é\n", ".x\n",
         # characters str.splitlines() treats as line boundaries but file iteration does not: one line each
         "x\x0cy\n", "p\u2028q\n", "v\x85w\n", "k\x1dl\x0bm\n"]
@@ -126,7 +149,8 @@ def normalise(case):
     n = len(vs) - 1
     cfg = dict(hash=case.get("hash") if case.get("hash") in ("SHA1", "SHA256", "both") else "SHA1",
                order=int(case.get("order") or 0) % 4, extra=bool(case.get("extra")),
-               names=int(case.get("names") or 0) % 2)
+               names=int(case.get("names") or 0) % 2,
+               verbose=bool(case.get("verbose")), via=int(case.get("via") or 0) % len(VIA))
     start = case.get("start") or ["absent"]
     if start[0] == "v":
         start = ["v", int(start[1]) % n]
@@ -152,8 +176,10 @@ def foreign_content(vs):
     return vs[0] + [FOREIGN_LINE]
 
 
-def plans(hist):
-    """Every (start, faults) plan for a history -- the enumerated fault space."""
+def plans(hist, both=False):
+    """Every (start, faults, verbose) plan for a history -- the enumerated fault space: every start x
+    every fault plan at the history's own verbose value; at the opposite value every start x every
+    fault plan too if ``both``, else every start without fault."""
     vs = hist["versions"]
     n = len(vs) - 1
     starts = [["absent"]] + [["v", i] for i in range(n)] + [["current"], ["foreign"]]
@@ -173,11 +199,14 @@ def plans(hist):
     fl += [[["open"]], [["rename"]], [["close"]], [["index", "missing", 0], ["close"]],
            [["index", "missing", 0], ["write", 1]], [["index", "missing", 0], ["rename"]],
            [["index", "broken", 0], ["write", max(len(vs[-1]), 1)]], [["index", "broken", 1], ["rename"]]]
-    return [(s, f) for f in fl for s in starts]
+    verbose = bool(hist.get("verbose"))
+    return ([(s, f, verbose) for f in fl for s in starts] +
+            [(s, f, not verbose) for f in (fl if both else [[]]) for s in starts])
 
 
-def plan_class(start, faults):
-    return (start[0], tuple(tuple(f[:2]) if f[0] in ("patch", "index") else (f[0],) for f in faults))
+def plan_class(start, faults, verbose):
+    return (start[0], tuple(tuple(f[:2]) if f[0] in ("patch", "index") else (f[0],) for f in faults),
+            verbose)
 
 
 # ------------------------------------------------------------------------------------------
@@ -345,11 +374,24 @@ def _in_dir(name, directory):
     return os.path.dirname(os.path.abspath(p)) == directory
 
 
-def run_update(remote, local, faults, st_):
-    """update_file(remote, local) with the I/O faults of the plan; every mock ends with the call."""
+def call_update(remote, local, verbose, via):
+    """The one call under test, in the call form of the case."""
+    alias = getattr(ds, "updateFile", None)
+    if VIA[via] == "alias" and alias is not None:
+        with warnings.catch_warnings():
+            warnings.simplefilter("ignore", DeprecationWarning)
+            return alias(remote, local, verbose=True) if verbose else alias(remote, local)
+    if VIA[via] == "positional":
+        return ds.update_file(remote, local, verbose)
+    return ds.update_file(remote, local, verbose=True) if verbose else ds.update_file(remote, local)
+
+
+def run_update(remote, local, faults, st_, verbose=False, via=0):
+    """update_file(remote, local[, verbose]) with the I/O faults of the plan; every mock ends with the
+    call, and so does the capture of what it prints (st_["printed"])."""
     localdir = os.path.dirname(local)
     st_.update(writes=0, fired=set(), urls=[], fail_write=None, fail_open=False, fail_rename=False,
-               fail_close=False)
+               fail_close=False, printed="")
     for f in faults:
         if f[0] == "close":
             st_["fail_close"] = True
@@ -383,14 +425,20 @@ def run_update(remote, local, faults, st_):
 
     old_tmp = tempfile.tempdir
     tempfile.tempdir = os.path.join(os.path.dirname(localdir), "tmp")
+    old_stdout, sink = sys.stdout, io.StringIO()
     try:
         with mock.patch.object(urllib.request, "urlopen", urlopen), \
                 mock.patch.object(ds, "open", fake_open, create=True), \
                 mock.patch.object(os, "rename", mover(_REAL["rename"])), \
-                mock.patch.object(os, "replace", mover(_REAL["replace"])):
-            return ds.update_file(remote, local)
+                mock.patch.object(os, "replace", mover(_REAL["replace"])), \
+                contextlib.redirect_stdout(sink):
+            return call_update(remote, local, verbose, via)
     finally:
         tempfile.tempdir = old_tmp
+        st_["printed"] = sink.getvalue()
+        if sys.stdout is not old_stdout:
+            sys.stdout = old_stdout
+            raise RuntimeError("C19 harness: sys.stdout was not restored after the case")
         if ("open" in vars(ds) or urllib.request.urlopen is not _REAL["urlopen"]
                 or os.rename is not _REAL["rename"] or os.replace is not _REAL["replace"]
                 or builtins.open is not _REAL["open"]):
@@ -439,7 +487,7 @@ def check(case):
         st_ = {}
         exc = ret = None
         try:
-            ret = run_update(res["remote"], local, faults, st_)
+            ret = run_update(res["remote"], local, faults, st_, cfg["verbose"], cfg["via"])
         except RuntimeError as e:
             if "harness" in str(e):
                 raise
@@ -479,7 +527,9 @@ def check(case):
                 (must_raise if in_hist and not is_cur else either).append(nm)
             elif f[1] in ("columns", "unlisted"):
                 either.append(nm)
-    what = "start=%s faults=%s hash=%s n=%d" % (start, faults, cfg["hash"], n)
+    what = "start=%s faults=%s hash=%s n=%d%s" % (
+        start, faults, cfg["hash"], n,
+        " verbose=%s via=%s" % (cfg["verbose"], VIA[cfg["via"]]) if cfg["verbose"] or cfg["via"] else "")
 
     # 1. whatever happened: no temporary file may remain
     if new_left:
@@ -524,7 +574,9 @@ def check(case):
     labels = ["start:" + (start[0] if start[0] != "v" else
                           ("v-first" if start[1] == 0 else "v-interior")),
               "hash:" + cfg["hash"], "n:%d" % n, "order:%d" % cfg["order"], "outcome:" + outcome,
-              "expect:" + ("raise" if must_raise else "either" if either else "converge")]
+              "expect:" + ("raise" if must_raise else "either" if either else "converge"),
+              "verbose:" + ("on" if cfg["verbose"] else "off"), "call:" + VIA[cfg["via"]],
+              "output:" + ("printed" if st_.get("printed") else "silent")]
     for f in faults:
         labels.append("fault:" + fault_name(f))
         labels.append("fault-took-effect" if (fault_name(f) in fired or f[0] in fired) else "fault-not-reached")
@@ -580,7 +632,8 @@ def gen_history(draw):
             new = (prev + [draw(line)]) if len(prev) < 7 else prev[:-1]
         vs.append(new)
     return {"versions": vs, "hash": draw(st.sampled_from(["SHA1", "SHA256", "SHA1", "SHA256", "both"])),
-            "order": draw(st.integers(0, 3)), "extra": draw(st.booleans()), "names": draw(st.integers(0, 1))}
+            "order": draw(st.integers(0, 3)), "extra": draw(st.booleans()), "names": draw(st.integers(0, 1)),
+            "verbose": draw(st.booleans()), "via": draw(st.sampled_from([0, 0, 1, 2]))}
 
 
 FIXED = [
@@ -601,9 +654,10 @@ def enum_fixed():
     for vs in FIXED:
         for h in ("SHA1", "SHA256", "both"):
             k += 1
-            hist = {"versions": vs, "hash": h, "order": k % 4, "extra": bool(k & 1), "names": (k >> 1) & 1}
-            for start, faults in plans(hist):
-                yield dict(hist, start=start, faults=faults)
+            hist = {"versions": vs, "hash": h, "order": k % 4, "extra": bool(k & 1), "names": (k >> 1) & 1,
+                    "verbose": False, "via": (k // 2) % len(VIA)}
+            for start, faults, verbose in plans(hist, both=True):
+                yield dict(hist, start=start, faults=faults, verbose=verbose)
 
 
 def histories_phase(n_histories):
@@ -626,8 +680,8 @@ def histories_phase(n_histories):
                 todo = [p for p in todo if plan_class(*p) == state["cls"]]
             else:
                 rec.note("histories-enumerated")
-            for start, faults in todo:
-                case = dict(hist, start=start, faults=faults)
+            for start, faults, verbose in todo:
+                case = dict(hist, start=start, faults=faults, verbose=verbose)
                 try:
                     res = engine.run_oracle(mod, case)
                 except Violation as v:
@@ -636,7 +690,7 @@ def histories_phase(n_histories):
                         continue
                     if state.get("sig") not in (None, v.sig):
                         continue
-                    state.update(sig=v.sig, cls=plan_class(start, faults), v=v, case=case)
+                    state.update(sig=v.sig, cls=plan_class(start, faults, verbose), v=v, case=case)
                     raise
                 rec.ok(case, res)
 
